@@ -35,8 +35,9 @@ type osStream struct {
 }
 
 type osFile struct {
-	streams  []osStream
-	ordinary map[int]string
+	streams   []osStream
+	ordinary  map[int]string
+	xrefExtra string // extra entries of the cross-reference stream dictionary
 }
 
 // facts about the generated body of a stream (for indirect /N, /First, /Length)
@@ -126,7 +127,7 @@ func (f *osFile) build() []byte {
 		}
 		data.Write([]byte{byte(e.tp), byte(e.a >> 16), byte(e.a >> 8), byte(e.a), byte(e.b >> 8), byte(e.b)})
 	}
-	fmt.Fprintf(buf, "%d 0 obj\n<< /Type /XRef /Size %d /W [1 3 2] /Root 1 0 R /Length %d >>\nstream\n", xnum, xnum+1, data.Len())
+	fmt.Fprintf(buf, "%d 0 obj\n<< /Type /XRef /Size %d /W [1 3 2] /Root 1 0 R /Length %d %s >>\nstream\n", xnum, xnum+1, data.Len(), f.xrefExtra)
 	buf.Write(data.Bytes())
 	fmt.Fprintf(buf, "\nendstream\nendobj\nstartxref\n%d\n%%%%EOF\n", x)
 	return buf.Bytes()
